@@ -236,7 +236,7 @@ V("C08-offset-unweighted", ["C08", "C11"], "linear_scoring", "b = sum_px[:, :, :
 V("C08-ubm-mean-plus", ["C08"], "linear_scoring", "a = (models_means - ubm.means) / ubm.variances", "a = (models_means + ubm.means) / ubm.variances", "UBM mean added in the model factor")
 V("C08-distributed", ["C08"], "linear_scoring", "b = sum_px[:, :, :] - n[:, :, None] * (ubm.means[None, :, :] + test_channel_offsets)", "b = sum_px[:, :, :] - n[:, :, None] * ubm.means[None, :, :] - n[:, :, None] * test_channel_offsets", "distributed product", kind="benign")
 V("C08-norm-by-n", ["C08"], "linear_scoring", "b = np.where(abs(t) <= EPSILON, 0, b[:, :] / t[None, :])", "b = np.where(abs(t) <= EPSILON, 0, b[:, :] / n.sum(axis=1)[None, :])", "normalised by the summed responsibilities")
-V("C08-guard-removed", ["C08", "C13"], "linear_scoring", "b = np.where(abs(t) <= EPSILON, 0, b[:, :] / t[None, :])", "b = b[:, :] / t[None, :]", "zero-frame guard removed")
+V("C08-guard-removed", ["C08"], "linear_scoring", "b = np.where(abs(t) <= EPSILON, 0, b[:, :] / t[None, :])", "b = b[:, :] / t[None, :]", "zero-frame guard removed")
 V("C08-guard-inverted-form", ["C08"], "linear_scoring", "b = np.where(abs(t) <= EPSILON, 0, b[:, :] / t[None, :])", "b = np.where(abs(t) > EPSILON, b[:, :] / t[None, :], 0)", "guard written the other way round", kind="benign")
 V("C08-always-normalised", ["C08"], "linear_scoring", "    if frame_length_normalization:\n        b = np.where(", "    if True:\n        b = np.where(", "normalisation applied regardless of the flag")
 V("C08-unwrap-late", ["C08"], "linear_scoring",
@@ -324,7 +324,7 @@ V("C06-prev-dropped", ["C06"], "kmeans", "            distance_previous = distan
 V("C06-argmin-axis", ["C06", "C20"], "kmeans", "return np.argmin(centroids_dist, axis=0)", "return np.argmin(centroids_dist, axis=1)", "argmin over the sample axis")
 V("C06-stale-centroids", ["C06"], "kmeans", "                stats = [e_step(X, means=self.centroids_)]", "                stats = [e_step(X, means=initial_centroids)]", "assignment against the initial centroids in the NumPy arm", may_be_undecided=True)
 V("C06-criterion-other-source", ["C06"], "kmeans", "            distance = self.average_min_distance\n", "            distance = float(np.mean(self.centroids_))\n", "convergence tested on something that is not the criterion")
-V("C06-mean-of-sums", ["C06", "C13"], "kmeans", "    means = first_order_statistics / zeroeth_order_statistics[:, None]", "    means = first_order_statistics / len(stats)", "centroid = sum / number of blocks")
+V("C06-mean-of-sums", ["C06"], "kmeans", "    means = first_order_statistics / zeroeth_order_statistics[:, None]", "    means = first_order_statistics / len(stats)", "centroid = sum / number of blocks")
 V("C06-sum-spelled", ["C06", "C04"], "kmeans", "average_min_distance = min_distance.sum()", "average_min_distance = np.sum(min_distance, axis=0)", "sum spelled with np.sum", kind="benign")
 
 # ----------------------------------------------------------------------------- C01
@@ -350,3 +350,69 @@ V("C01-vectorised", ["C01", "C15"], "gmm",
   "    z = np.sum((data[None, :, :] - machine.means[:, None, :]) ** 2 / machine.variances[:, None, :], axis=-1)",
   "quadratic form vectorised by broadcasting", kind="benign")
 V("C01-renamed", ["C01"], "gmm", "log_weighted_likelihoods = machine.log_weights[:, None] + ll\n    return log_weighted_likelihoods", "lwl = ll + machine.log_weights[:, None]\n    return lwl", "operands swapped, local renamed", kind="benign")
+
+# ----------------------------------------------------------------------------- C02
+IADD_PXX = "        self.sum_px += other.sum_px\n        self.sum_pxx += other.sum_pxx\n        return self"
+V("C02-iadd-field-dropped", ["C02", "C04"], "gmm", IADD_PXX, "        self.sum_px += other.sum_px\n        return self", "+= forgets the second-order statistics")
+V("C02-iadd-assign", ["C02", "C04"], "gmm", "        self.n += other.n\n        self.sum_px += other.sum_px\n        self.sum_pxx", "        self.n = other.n\n        self.sum_px += other.sum_px\n        self.sum_pxx", "+= overwrites the counts instead of adding")
+V("C02-iadd-explicit", ["C02"], "gmm", "        self.t += other.t\n        self.n += other.n", "        self.t = self.t + other.t\n        self.n += other.n", "one field accumulated with x = x + y", kind="benign")
+V("C02-add-field-copied", ["C02"], "gmm", "        new_stats.n = self.n + other.n", "        new_stats.n = self.n", "+ copies the left operand's counts")
+V("C02-add-returns-self", ["C02", "C19"], "gmm",
+  "        new_stats = GMMStats(self.n_gaussians, self.n_features)\n        new_stats.log_likelihood = self.log_likelihood + other.log_likelihood\n        new_stats.t = self.t + other.t\n        new_stats.n = self.n + other.n\n        new_stats.sum_px = self.sum_px + other.sum_px\n        new_stats.sum_pxx = self.sum_pxx + other.sum_pxx\n        return new_stats",
+  "        self += other\n        return self", "+ implemented as += on the left operand")
+V("C02-add-deepcopy", ["C02"], "gmm",
+  "        new_stats = GMMStats(self.n_gaussians, self.n_features)\n        new_stats.log_likelihood = self.log_likelihood + other.log_likelihood\n        new_stats.t = self.t + other.t\n        new_stats.n = self.n + other.n\n        new_stats.sum_px = self.sum_px + other.sum_px\n        new_stats.sum_pxx = self.sum_pxx + other.sum_pxx\n        return new_stats",
+  "        new_stats = copy.deepcopy(self)\n        new_stats.log_likelihood += other.log_likelihood\n        new_stats.t += other.t\n        new_stats.n += other.n\n        new_stats.sum_px += other.sum_px\n        new_stats.sum_pxx += other.sum_pxx\n        return new_stats",
+  "+ as deep copy then +=", kind="benign")
+V("C02-guard-one-field", ["C02"], "gmm", "    def __iadd__(self, other):\n        if self.n_gaussians != other.n_gaussians or self.n_features != other.n_features:", "    def __iadd__(self, other):\n        if self.n_gaussians != other.n_gaussians:", "shape test weakened to one field")
+V("C02-guard-and", ["C02"], "gmm", "    def __add__(self, other):\n        if self.n_gaussians != other.n_gaussians or self.n_features != other.n_features:", "    def __add__(self, other):\n        if self.n_gaussians != other.n_gaussians and self.n_features != other.n_features:", "shape test refuses only when both fields differ")
+V("C02-guard-after", ["C02"], "gmm",
+  "        if self.n_gaussians != other.n_gaussians or self.n_features != other.n_features:\n            raise ValueError('Statistics could not be added together (shape mismatch)')\n        self.log_likelihood += other.log_likelihood\n        self.t += other.t",
+  "        self.log_likelihood += other.log_likelihood\n        self.t += other.t\n        if self.n_gaussians != other.n_gaussians or self.n_features != other.n_features:\n            raise ValueError('Statistics could not be added together (shape mismatch)')",
+  "shape test after two fields were already modified")
+V("C02-guard-shape-prop", ["C02"], "gmm", "    def __add__(self, other):\n        if self.n_gaussians != other.n_gaussians or self.n_features != other.n_features:", "    def __add__(self, other):\n        if self.shape != other.shape:", "shape test through the shape property", kind="benign")
+V("C02-ll-mean", ["C02", "C03", "C04"], "gmm", "statistics.log_likelihood = log_likelihood.sum()", "statistics.log_likelihood = log_likelihood.mean()", "block-averaged log-likelihood stored as the total")
+V("C02-n-mean", ["C02", "C04"], "gmm", "statistics.n = responsibility.sum(axis=-1)", "statistics.n = responsibility.mean(axis=-1)", "averaged responsibilities stored as counts")
+V("C02-normaliser-max", ["C02"], "gmm", "responsibility = np.exp(log_weighted_likelihoods - log_likelihood[None, :])", "responsibility = np.exp(log_weighted_likelihoods - log_weighted_likelihoods.max(axis=0)[None, :])", "responsibilities normalised by the max instead of the log-sum-exp")
+V("C02-pxx-weighted-square", ["C02", "C15"], "gmm", "sum_pxx.append(np.sum(px * data, axis=0))", "sum_pxx.append(np.sum(px * data * data, axis=0))", "third-order moment stored as second-order statistic")
+V("C02-px-over-features", ["C02"], "gmm", "sum_px.append(np.sum(px, axis=0))", "sum_px.append(np.sum(px, axis=-1))", "first-order statistic summed over the feature axis")
+V("C02-eq-field-dropped", ["C02", "C18"], "gmm", " and np.array_equal(self.sum_pxx, other.sum_pxx)", "", "equality ignores the second-order statistics")
+V("C02-fold-skips-first", ["C02", "C04"], "gmm", "statistics = functools.reduce(operator.iadd, statistics)", "statistics = functools.reduce(operator.iadd, statistics[1:])", "first block's statistics left out of the M-step")
+V("C02-t-from-n", ["C02"], "gmm", "statistics.t = data.shape[0]", "statistics.t = len(data)", "sample count via len()", kind="benign")
+
+# ----------------------------------------------------------------------------- C13
+V("C13-clip-removed", ["C13", "C03"], "gmm", "thresholded_n = np.clip(statistics.n, mean_var_update_threshold, None)", "thresholded_n = statistics.n", "count floor removed from the ML M-step: 0/0 for a component without responsibility")
+V("C13-clip-upper-only", ["C13"], "gmm", "thresholded_n = np.clip(statistics.n, mean_var_update_threshold, None)", "thresholded_n = np.clip(statistics.n, None, mean_var_update_threshold)", "clip bounds swapped: counts capped, not floored")
+V("C13-clip-as-maximum", ["C13", "C03"], "gmm", "thresholded_n = np.clip(statistics.n, mean_var_update_threshold, None)", "thresholded_n = np.maximum(statistics.n, mean_var_update_threshold)", "floor spelled with np.maximum", kind="benign")
+V("C13-means-raw-n", ["C13", "C03"], "gmm", "machine.means = statistics.sum_px / thresholded_n[:, None]", "machine.means = statistics.sum_px / statistics.n[:, None]", "ML means divide by the raw counts")
+V("C13-map-means-raw-n", ["C13", "C05"], "gmm", "statistics.sum_px / n_threshold[:, None]", "statistics.sum_px / statistics.n[:, None]", "MAP means divide by the raw counts (NaN * 0 survives the blend)", kind="benign")
+V("C13-map-where-removed", ["C13", "C05"], "gmm", "machine.variances = np.where(statistics.n[:, None] < mean_var_update_threshold, prior_norm_variances, new_variances)", "machine.variances = new_variances", "no-evidence fallback of the MAP variances removed: alpha*sum_pxx/n is 0/0")
+V("C13-relevance-dropped", ["C13", "C05"], "gmm", "alpha = statistics.n / (statistics.n + relevance_factor)", "alpha = statistics.n / statistics.n", "alpha = n/n: 0/0 for an empty component")
+V("C13-sigma-clamp-before", ["C13", "C10"], "ivector",
+  "        machine.sigma = (stats.snormij - fnorm_sigma_wij_tt) / stats.nij[:, None]\n        machine.sigma[machine.sigma < machine.variance_floor] = machine.variance_floor",
+  "        machine.sigma[machine.sigma < machine.variance_floor] = machine.variance_floor\n        machine.sigma = (stats.snormij - fnorm_sigma_wij_tt) / stats.nij[:, None]",
+  "covariance clamp applied before the update")
+V("C13-sigma-clamp-removed", ["C13", "C10"], "ivector", "        machine.sigma[machine.sigma < machine.variance_floor] = machine.variance_floor\n", "", "covariance clamp removed")
+V("C13-sigma-clamp-maximum", ["C13", "C10"], "ivector",
+  "        machine.sigma = (stats.snormij - fnorm_sigma_wij_tt) / stats.nij[:, None]\n        machine.sigma[machine.sigma < machine.variance_floor] = machine.variance_floor",
+  "        machine.sigma = np.maximum((stats.snormij - fnorm_sigma_wij_tt) / stats.nij[:, None], machine.variance_floor)",
+  "clamp spelled with np.maximum", kind="benign")
+V("C13-zero-matrix-guard-removed", ["C13", "C10"], "ivector", "        X[mask] = [np.linalg.solve(A[c], B[c]) for c in range(len(mask)) if A[c].any()]", "        X[mask] = [np.linalg.solve(A[c], B[c]) for c in range(len(mask))]", "zero-matrix filter removed from the per-component solve")
+V("C13-map-weights-not-renormalised", ["C13", "C05"], "gmm", "        gamma = machine.weights.sum()\n        machine.weights /= gamma\n", "", "adapted weights not renormalised")
+V("C13-new-division-by-count", ["C13"], "gmm", "        machine.weights = thresholded_n / statistics.t", "        machine.weights = thresholded_n / statistics.t\n        machine.weights = machine.weights / (statistics.n / statistics.n.sum())* (statistics.n / statistics.n.sum())", "a fifth unguarded division by a count")
+
+# ----------------------------------------------------------------------------- C05
+V("C05-alpha-n-times-r", ["C05"], "gmm", "alpha = statistics.n / (statistics.n + relevance_factor)", "alpha = statistics.n / (statistics.n * relevance_factor)", "alpha = n/(n*r)")
+V("C05-alpha-inverted", ["C05"], "gmm", "alpha = statistics.n / (statistics.n + relevance_factor)", "alpha = relevance_factor / (statistics.n + relevance_factor)", "alpha and 1-alpha exchanged")
+V("C05-mean-not-divided", ["C05", "C15"], "gmm", "np.multiply(alpha[:, None], statistics.sum_px / n_threshold[:, None])", "np.multiply(alpha[:, None], statistics.sum_px)", "data term of the mean blend not divided by the counts")
+V("C05-blend-swapped", ["C05"], "gmm", "new_means = np.multiply(alpha[:, None], statistics.sum_px / n_threshold[:, None]) + np.multiply(1 - alpha[:, None], machine.ubm.means)", "new_means = np.multiply(1 - alpha[:, None], statistics.sum_px / n_threshold[:, None]) + np.multiply(alpha[:, None], machine.ubm.means)", "alpha on the prior, 1-alpha on the data")
+V("C05-blend-operator-form", ["C05"], "gmm", "new_means = np.multiply(alpha[:, None], statistics.sum_px / n_threshold[:, None]) + np.multiply(1 - alpha[:, None], machine.ubm.means)", "new_means = alpha[:, None] * (statistics.sum_px / n_threshold[:, None]) + machine.ubm.means - alpha[:, None] * machine.ubm.means", "blend written with operators and distributed", kind="benign")
+V("C05-weights-prior-unweighted", ["C05"], "gmm", "machine.weights = alpha * ml_weights + (1 - alpha) * machine.ubm.weights", "machine.weights = alpha * ml_weights + machine.ubm.weights", "prior weights not weighted by 1-alpha")
+V("C05-variance-mean-cubed", ["C05", "C15"], "gmm", "+ (1 - alpha[:, None]) * (machine.ubm.variances + machine.ubm.means) - np.power(machine.means, 2)", "+ (1 - alpha[:, None]) * (machine.ubm.variances + machine.ubm.means ** 3) - np.power(machine.means, 2)", "a *different* dimension error at the known-finding site")
+V("C05-variance-mean2-weighted", ["C05"], "gmm", "+ (1 - alpha[:, None]) * (machine.ubm.variances + machine.ubm.means) - np.power(machine.means, 2)", "+ (1 - alpha[:, None]) * (machine.ubm.variances + machine.ubm.means - np.power(machine.means, 2))", "adapted mean^2 inside the (1-alpha) bracket")
+V("C05-means-fallback-removed", ["C05", "C13"], "gmm", "machine.means = np.where(statistics.n[:, None] < mean_var_update_threshold, machine.ubm.means, new_means)", "machine.means = new_means", "no-evidence fallback of the means removed", kind="break")
+V("C05-fallback-to-data", ["C05"], "gmm", "machine.means = np.where(statistics.n[:, None] < mean_var_update_threshold, machine.ubm.means, new_means)", "machine.means = np.where(statistics.n[:, None] < mean_var_update_threshold, statistics.sum_px, new_means)", "no-evidence fallback is not the prior mean")
+V("C05-prior-aliased", ["C05", "C19"], "gmm", "            self.means = copy.deepcopy(self.ubm.means)\n            self.variance_thresholds = copy.deepcopy(self.ubm.variance_thresholds)\n            self.variances = copy.deepcopy(self.ubm.variances)\n            self.weights = copy.deepcopy(self.ubm.weights)\n        else:\n            self.weights = np.full", "            self.means = self.ubm.means\n            self.variance_thresholds = copy.deepcopy(self.ubm.variance_thresholds)\n            self.variances = copy.deepcopy(self.ubm.variances)\n            self.weights = copy.deepcopy(self.ubm.weights)\n        else:\n            self.weights = np.full", "constructor aliases the prior's means")
+V("C05-prior-crossed", ["C05"], "gmm", "            self.variances = copy.deepcopy(self.ubm.variances)\n            self.weights = copy.deepcopy(self.ubm.weights)\n        else:\n            logger.debug", "            self.variances = copy.deepcopy(self.ubm.variance_thresholds)\n            self.weights = copy.deepcopy(self.ubm.weights)\n        else:\n            logger.debug", "variances initialised from the prior's floors")
+V("C05-floors-after-variances", ["C05"], "gmm", "            self.variance_thresholds = copy.deepcopy(self.ubm.variance_thresholds)\n            self.variances = copy.deepcopy(self.ubm.variances)\n            self.weights = copy.deepcopy(self.ubm.weights)\n        else:\n            logger.debug", "            self.variances = copy.deepcopy(self.ubm.variances)\n            self.variance_thresholds = copy.deepcopy(self.ubm.variance_thresholds)\n            self.weights = copy.deepcopy(self.ubm.weights)\n        else:\n            logger.debug", "revert of fix 633f4cd (initialize_gaussians): variances before floors")
+V("C05-prior-copy-method", ["C05", "C19"], "gmm", "            self.means = copy.deepcopy(self.ubm.means)\n            self.variance_thresholds = copy.deepcopy(self.ubm.variance_thresholds)\n            self.variances = copy.deepcopy(self.ubm.variances)\n            self.weights = copy.deepcopy(self.ubm.weights)\n        else:\n            self.weights = np.full", "            self.means = self.ubm.means.copy()\n            self.variance_thresholds = copy.deepcopy(self.ubm.variance_thresholds)\n            self.variances = copy.deepcopy(self.ubm.variances)\n            self.weights = copy.deepcopy(self.ubm.weights)\n        else:\n            self.weights = np.full", ".copy() instead of deepcopy", kind="benign")
